@@ -80,6 +80,16 @@ func randomFields(r *rand.Rand, typ string) gen.Cfg {
 		set(&c.MinMatchLen)
 		set(&c.MaxMatchLen)
 		c.Cost = costStrings[r.Intn(len(costStrings))]
+		if r.Intn(12) == 0 {
+			// long strings: documents of 4 kB to 1 MiB (around 64 KiB: every
+			// length from 65300 to 65700)
+			n := []int{4000, 65300 + r.Intn(400), 65536, 70000, 1 << 20, 200000}[r.Intn(6)]
+			b := make([]byte, n)
+			for i := range b {
+				b[i] = "XZCost-abc <&>é"[r.Intn(15)]
+			}
+			c.Cost = strings.ToValidUTF8(string(b), "?")
+		}
 	}
 	return c
 }
